@@ -4,9 +4,6 @@ From NV.Common Require Import Base LockTable.
 From NV.C03 Require Import Model.
 Open Scope N_scope.
 
-Fixpoint insert_sorted (x : N) (l : list N) : list N :=
-  match l with [] => [x] | y :: r => if N.leb x y then x :: l else y :: insert_sorted x r end.
-Definition sortN (l : list N) : list N := fold_right insert_sorted [] l.
 Definition lN_eqb := list_eqb N.eqb.
 Definition oN_eqb := option_eqb N.eqb.
 Definition loN_eqb := list_eqb oN_eqb.
@@ -26,7 +23,8 @@ Definition obs_eqb (a b : obs) : bool :=
 Definition model_pdump (K now : N) (p : part) : pdump :=
   PD (map (aget (store p)) (N_seq K)) (sortN (map fst (prepared p))) (map (holder now (ptbl p)) (N_seq K)).
 Definition model_obs (K Tn : N) (g : gst) (ret : list N) : obs :=
-  (ret, map (fun tx => option_map c_phase (aget (pending (co g)) tx)) (txs Tn), map (model_pdump K (gnow g)) (ps g)).
+  (ret, map (fun tx => match aget (committing (co g)) tx with Some _ => Some 3 | None => option_map c_phase (aget (pending (co g)) tx) end) (txs Tn),
+   map (model_pdump K (gnow g)) (ps g)).
 
 Fixpoint model_trace (K Tn : N) (g : gst) (es : list ev) : list obs :=
   match es with
@@ -40,6 +38,11 @@ Definition pair_del (x : N * N) (l : list (N * N)) : list (N * N) :=
   filter (fun y => negb (N.eqb (fst x) (fst y) && N.eqb (snd x) (snd y))) l.
 Definition decided (tx : N) (d : list (N * bool)) : bool := existsb (fun y => N.eqb tx (fst y)) d.
 Definition committed (tx : N) (d : list (N * bool)) : bool := existsb (fun y => N.eqb tx (fst y) && snd y) d.
+Definition aborted (tx : N) (d : list (N * bool)) : bool := existsb (fun y => N.eqb tx (fst y) && negb (snd y)) d.
+(* a decision ANNOUNCED by the coordinator: the return of commit / abort / cleanup_timeouts / complete_abort, a
+   transaction listed by take_pending_aborts (abort broadcast) or by get_pending_decisions after recover() *)
+Definition add_dec (d : list (N * bool)) (tx : N) (b : bool) : list (N * bool) :=
+  if existsb (fun y => N.eqb tx (fst y) && Bool.eqb b (snd y)) d then d else d ++ [(tx, b)].
 
 (* bookkeeping rebuilt from the events and the implementation's return values only *)
 Record ost := OS {
@@ -50,11 +53,12 @@ Record ost := OS {
   o_applied : list (N * N);
   o_discarded : list (N * N);
   o_dirty : list (N * N);      (* (tx, shard): another tx committed on one of tx's keys at shard since tx's last Yes there *)
-  o_known : bool;              (* a known-class hit was seen *)
+  o_known : list N;            (* known classes hit: 0 undo-after-foreign-commit, 1 presumed-abort-after-yes *)
   o_now : N;                   (* time, rebuilt from the EAdvance events *)
   o_yes : list (N * N * N);    (* (tx, shard, time of tx's latest Yes at shard) = when its key locks there were (re)acquired *)
-  o_illegit : list (N * N)     (* dirty marks whose two overlapping prepares were NOT separated by a lock expiry: on correct
+  o_illegit : list (N * N);    (* dirty marks whose two overlapping prepares were NOT separated by a lock expiry: on correct
                                   code the second prepare would have been refused, so this is not the known class *)
+  o_swept : list (N * N)       (* (tx, shard): a housekeeping sweep dropped tx's prepared entry on shard (since its last Yes there) *)
 }.
 Definition yes_time (o : ost) (tx sh : N) : N :=
   match find (fun y => N.eqb (fst (fst y)) tx && N.eqb (snd (fst y)) sh) (o_yes o) with Some y => snd y | None => 0 end.
@@ -83,7 +87,13 @@ Fixpoint set_nth_o (l : list (option N)) (i : nat) (x : option N) : list (option
 Definition expect_store (ops : list pop) (st : list (option N)) : list (option N) :=
   fold_left (fun st o => match o with Put k v => set_nth_o st (N.to_nat k) (Some v) | Del k => set_nth_o st (N.to_nat k) None end) ops st.
 
-Definition upd (o : ost) net' dec' cast' app' disc' dirty' known' : ost := OS net' (o_reg o) dec' cast' app' disc' dirty' known' (o_now o) (o_yes o) (o_illegit o).
+Definition upd (o : ost) net' dec' cast' app' disc' dirty' known' : ost := OS net' (o_reg o) dec' cast' app' disc' dirty' known' (o_now o) (o_yes o) (o_illegit o) (o_swept o).
+Definition with_dec (o : ost) net' dec' : ost := upd o net' dec' (o_cast o) (o_applied o) (o_discarded o) (o_dirty o) (o_known o).
+Definition add_known (o : ost) (k : N) : ost :=
+  OS (o_net o) (o_reg o) (o_dec o) (o_cast o) (o_applied o) (o_discarded o) (o_dirty o) (set_add k (o_known o)) (o_now o) (o_yes o) (o_illegit o) (o_swept o).
+(* decisions listed by get_pending_decisions: flat (tx, phase) pairs, phase 3 = Committing, 2 = Aborting *)
+Fixpoint pairs_of (l : list N) : list (N * N) :=
+  match l with tx :: ph :: r => (tx, ph) :: pairs_of r | _ => [] end.
 
 (* returns None on a property violation *)
 Definition ostep (ptmos : list N) (o : ost) (e : ev) (ret : list N) (pre post : list pdump) : option ost :=
@@ -91,11 +101,11 @@ Definition ostep (ptmos : list N) (o : ost) (e : ev) (ret : list N) (pre post : 
   | EBegin parts ops _ =>
       match ret with
       | [tx] => Some (OS (o_net o ++ map (fun sh => MPrepare tx sh (ops_for ops sh)) parts) (aset (o_reg o) tx (parts, ops))
-                         (o_dec o) (o_cast o) (o_applied o) (o_discarded o) (o_dirty o) (o_known o) (o_now o) (o_yes o) (o_illegit o))
+                         (o_dec o) (o_cast o) (o_applied o) (o_discarded o) (o_dirty o) (o_known o) (o_now o) (o_yes o) (o_illegit o) (o_swept o))
       | _ => None
       end
   | EDrop i => Some (upd o (remove_nth (o_net o) (N.to_nat i)) (o_dec o) (o_cast o) (o_applied o) (o_discarded o) (o_dirty o) (o_known o))
-  | EAdvance d => Some (OS (o_net o) (o_reg o) (o_dec o) (o_cast o) (o_applied o) (o_discarded o) (o_dirty o) (o_known o) (o_now o + d) (o_yes o) (o_illegit o))
+  | EAdvance d => Some (OS (o_net o) (o_reg o) (o_dec o) (o_cast o) (o_applied o) (o_discarded o) (o_dirty o) (o_known o) (o_now o + d) (o_yes o) (o_illegit o) (o_swept o))
   | EStray _ _ _ => Some o      (* a stray vote is no participant's answer: nothing to book *)
   | ECommit tx =>
       match ret with
@@ -103,21 +113,59 @@ Definition ostep (ptmos : list N) (o : ost) (e : ev) (ret : list N) (pre post : 
           (* one decision per transaction; commit only if every participant answered Yes *)
           if decided tx (o_dec o) then None
           else if negb (forallb (fun sh => pair_mem (tx, sh) (o_cast o)) (reg_parts o tx)) then None
-          else Some (upd o (o_net o ++ bcast (MCommit tx) (reg_parts o tx)) (o_dec o ++ [(tx, true)]) (o_cast o) (o_applied o) (o_discarded o) (o_dirty o) (o_known o))
+          else Some (with_dec o (o_net o ++ bcast (MCommit tx) (reg_parts o tx)) (o_dec o ++ [(tx, true)]))
       | _ => Some o
       end
   | EAbort tx =>
       match ret with
       | [0] =>
-          if decided tx (o_dec o) then None
-          else Some (upd o (o_net o ++ bcast (MAbort tx) (reg_parts o tx)) (o_dec o ++ [(tx, false)]) (o_cast o) (o_applied o) (o_discarded o) (o_dirty o) (o_known o))
+          (* the decision never changes: no abort after a commit decision was announced *)
+          if committed tx (o_dec o) then None
+          else Some (with_dec o (o_net o ++ bcast (MAbort tx) (reg_parts o tx)) (add_dec (o_dec o) tx false))
       | _ => Some o
       end
   | ETimeouts =>
-      if existsb (fun tx => decided tx (o_dec o)) ret then None
-      else Some (upd o (o_net o) (o_dec o ++ map (fun tx => (tx, false)) ret) (o_cast o) (o_applied o) (o_discarded o) (o_dirty o) (o_known o))
+      if existsb (fun tx => committed tx (o_dec o)) ret then None
+      else Some (with_dec o (o_net o) (fold_left (fun d tx => add_dec d tx false) ret (o_dec o)))
   | ETakeAborts =>
-      Some (upd o (o_net o ++ abort_msgs (unflat ret (length ret))) (o_dec o) (o_cast o) (o_applied o) (o_discarded o) (o_dirty o) (o_known o))
+      let q := unflat ret (length ret) in
+      if existsb (fun ts => committed (fst ts) (o_dec o)) q then None
+      else Some (with_dec o (o_net o ++ abort_msgs q) (fold_left (fun d ts => add_dec d (fst ts) false) q (o_dec o)))
+  | ERecover =>
+      (* what get_pending_decisions lists after recover() is what the driver broadcasts: a transaction whose abort was
+         announced must not come back as Committing, one whose commit was announced must not come back as Aborting;
+         a NEW commit decision needs every participant's Yes *)
+      let ds := pairs_of (skipn 4 ret) in
+      if existsb (fun d => if N.eqb (snd d) 3 then aborted (fst d) (o_dec o) else committed (fst d) (o_dec o)) ds then None
+      else if existsb (fun d => N.eqb (snd d) 3 && negb (committed (fst d) (o_dec o))
+                                && negb (forallb (fun sh => pair_mem (fst d, sh) (o_cast o)) (reg_parts o (fst d)))) ds then None
+      else Some (with_dec o
+                   (o_net o ++ flat_map (fun d => bcast (if N.eqb (snd d) 3 then MCommit (fst d) else MAbort (fst d)) (reg_parts o (fst d))) ds)
+                   (fold_left (fun dd d => add_dec dd (fst d) (N.eqb (snd d) 3)) ds (o_dec o)))
+  | ECompleteCommit tx =>
+      match ret with
+      | [0] => if committed tx (o_dec o) && negb (aborted tx (o_dec o)) then Some o else None
+      | _ => Some o
+      end
+  | ECompleteAbort tx =>
+      match ret with
+      | [0] => if committed tx (o_dec o) then None else Some (with_dec o (o_net o) (add_dec (o_dec o) tx false))
+      | _ => Some o
+      end
+  | ESweep sh _ _ =>
+      (* a housekeeping sweep drops prepared transactions like an abort: the shard's data must stay as it was (known
+         class 0: another transaction committed on the key in between); a dropped transaction whose decision is
+         commit is the known class 1 (the participant had voted Yes) *)
+      let dropped := filter (fun t => negb (mem t (pd_prepared (nth_pd post sh)))) (pd_prepared (nth_pd pre sh)) in
+      let same := loN_eqb (pd_store (nth_pd pre sh)) (pd_store (nth_pd post sh)) in
+      if existsb (fun t => negb (mem t (pd_prepared (nth_pd pre sh)))) (pd_prepared (nth_pd post sh)) then None
+      else if negb same && negb (existsb (fun t => pair_mem (t, sh) (o_dirty o) && negb (pair_mem (t, sh) (o_illegit o))) dropped) then None
+      else
+        let o1 := OS (o_net o) (o_reg o) (o_dec o) (o_cast o) (o_applied o) (o_discarded o)
+                     (filter (fun y => negb (N.eqb (snd y) sh && mem (fst y) dropped)) (o_dirty o))
+                     (o_known o) (o_now o) (o_yes o) (o_illegit o) (map (fun t => (t, sh)) dropped ++ o_swept o) in
+        let o2 := if same then o1 else add_known o1 0 in
+        Some (if existsb (fun t => committed t (o_dec o)) dropped then add_known o2 1 else o2)
   | EDeliver i keep =>
       match nth_error (o_net o) (N.to_nat i) with
       | None => None
@@ -135,7 +183,7 @@ Definition ostep (ptmos : list N) (o : ost) (e : ev) (ret : list N) (pre post : 
                        Some (OS (net0 ++ [MVote tx sh (VYes h)]) (o_reg o) (o_dec o) ((tx, sh) :: o_cast o) (o_applied o) (o_discarded o)
                                         (pair_del (tx, sh) (o_dirty o)) (o_known o) (o_now o)
                                         ((tx, sh, o_now o) :: filter (fun y => negb (N.eqb (fst (fst y)) tx && N.eqb (snd (fst y)) sh)) (o_yes o))
-                                        (pair_del (tx, sh) (o_illegit o)))
+                                        (pair_del (tx, sh) (o_illegit o)) (pair_del (tx, sh) (o_swept o)))
                    | [1; b] => Some (upd o (net0 ++ [MVote tx sh (VConflict b)]) (o_dec o) (o_cast o) (o_applied o) (o_discarded o) (o_dirty o) (o_known o))
                    | _ => None
                    end
@@ -158,7 +206,7 @@ Definition ostep (ptmos : list N) (o : ost) (e : ev) (ret : list N) (pre post : 
                     let bad := filter (fun t => negb (gap_gt (yes_time o t sh) (yes_time o tx sh) lim)) others in
                     Some (OS net0 (o_reg o) (o_dec o) (o_cast o) ((tx, sh) :: o_applied o) (o_discarded o)
                              (map (fun t => (t, sh)) others ++ o_dirty o) (o_known o) (o_now o) (o_yes o)
-                             (map (fun t => (t, sh)) bad ++ o_illegit o))
+                             (map (fun t => (t, sh)) bad ++ o_illegit o) (o_swept o))
               | _ =>
                   (* the commit was not applied.  If this participant still held the prepared transaction (it voted yes)
                      and dropped it now, it has discarded a transaction whose decision is commit *)
@@ -166,6 +214,9 @@ Definition ostep (ptmos : list N) (o : ost) (e : ev) (ret : list N) (pre post : 
                   let has := mem tx (pd_prepared (nth_pd post sh)) in
                   if negb (loN_eqb (pd_store (nth_pd pre sh)) (pd_store (nth_pd post sh))) then None
                   else if had && negb has && committed tx (o_dec o) then None
+                  (* the shard voted Yes, a sweep dropped the transaction, the decision is commit: known class 1 *)
+                  else if pair_mem (tx, sh) (o_swept o) && committed tx (o_dec o) && negb (pair_mem (tx, sh) (o_applied o))
+                  then Some (add_known (upd o net0 (o_dec o) (o_cast o) (o_applied o) (o_discarded o) (o_dirty o) (o_known o)) 1)
                   else Some (upd o net0 (o_dec o) (o_cast o) (o_applied o) (o_discarded o) (o_dirty o) (o_known o))
               end
           | MAbort tx sh =>
@@ -181,7 +232,7 @@ Definition ostep (ptmos : list N) (o : ost) (e : ev) (ret : list N) (pre post : 
                 let others := filter (fun t => negb (N.eqb t tx) && keys_meet (reg_ops o tx sh) (reg_ops o t sh))
                                      (pd_prepared (nth_pd pre sh)) in
                 Some (upd o net0 (o_dec o) (o_cast o) (o_applied o) ((tx, sh) :: o_discarded o)
-                          (map (fun t => (t, sh)) others ++ pair_del (tx, sh) (o_dirty o)) true)
+                          (map (fun t => (t, sh)) others ++ pair_del (tx, sh) (o_dirty o)) (set_add 0 (o_known o)))
               else None
           end
       end
@@ -204,10 +255,10 @@ Definition check_2pc (c : c03_case) : N :=
   let '(K, Tn, ctmo, parts0, es, os) := c in
   let g0 := ginit ctmo (map (fun st => part_init (fst st) (snd st)) parts0) in
   if negb (Nat.eqb (length es) (length os)) then 9
-  else match owalk (map snd parts0) (OS [] [] [] [] [] [] [] false 1000 [] []) es os (map (model_pdump K (gnow g0)) (ps g0)) with
+  else match owalk (map snd parts0) (OS [] [] [] [] [] [] [] [] 1000 [] [] []) es os (map (model_pdump K (gnow g0)) (ps g0)) with
        | None => V_VIOLATION
        | Some o =>
            (* the model mirrors the code, defect included: a known-class case must still correspond *)
            if negb (list_eqb obs_eqb (model_trace K Tn g0 es) os) then V_MISMATCH
-           else if o_known o then V_KNOWN 0 else V_OK
+           else match o_known o with [] => V_OK | k :: _ => V_KNOWN (fold_left N.min (o_known o) k) end
        end.
